@@ -84,7 +84,8 @@ def main():
     ck = Check("C09")
     if "--replay" in sys.argv:
         replay_main(ck, sys.argv[sys.argv.index("--replay") + 1])
-    pr = proof_part(ck, "C09")
+    import extract_loc
+    pr = proof_part(ck, "C09", pre=extract_loc.regenerate)      # Gen/Loc.lean: the shape of doAncestors (ancestor_walk_shape)
     # Two different errors can lie on one ancestor walk (a rule id met twice along two paths, a parent that does not exist, a loop).
     # The real code reports the duplicate while it walks, the model after the walk: which of the errors is reported first may differ.
     WALK_ERRS = ("dupId", "notFound", "loop", "noProvider")
